@@ -29,6 +29,7 @@ type obs struct {
 	Vals    [][]int `json:"vals"`     // values handed to the ForEach callback, in order
 	FindErr int     `json:"find_err"` // error class returned by Find (4 = io.EOF = no such key)
 	FindVal []int   `json:"find_val"`
+	Present int     `json:"present"` // is the key itself stored (Del of a never-stored value: ErrNXKey / ErrNXVal)? 0 no, 1 yes, 2 not observed
 }
 
 type step struct {
@@ -67,6 +68,9 @@ func errClass(err error) int {
 func cp(b []byte) []byte { return append([]byte{}, b...) }
 
 // observe reads every key of the alphabet the way the server does.
+// sentinel is a value no generator produces.
+var sentinel = []byte("\x00verif-c15-never-stored\xff")
+
 func observe(db *rdb.RDB, keys [][]byte) []obs {
 	res := make([]obs, len(keys))
 	for i, k := range keys {
@@ -80,6 +84,18 @@ func observe(db *rdb.RDB, keys [][]byte) []obs {
 		o.FindErr = errClass(err)
 		if err == nil {
 			o.FindVal = hlib.Ints(cp(v))
+		}
+		// Is the key itself stored?  Del of a value that is never stored fails with ErrNXKey
+		// exactly when the key is absent and with ErrNXVal when it is there (and changes nothing).
+		// (FindClosest cannot be used on a store that is being written: pooled iterators keep
+		// the snapshot they were created on.)
+		switch errClass(db.Del(cp(k), cp(sentinel))) {
+		case 1:
+			o.Present = 0
+		case 2:
+			o.Present = 1
+		default:
+			o.Present = 2
 		}
 		res[i] = o
 	}
@@ -285,7 +301,7 @@ func (g *gen) genStep(bigBatch bool) step {
 func newGen(r *hlib.Rng, tier string) (*gen, string, int) {
 	g := &gen{r: r, state: map[string][][]byte{}}
 	class := "small"
-	nsteps := 3 + r.Intn(10)
+	nsteps := 4 + r.Intn(13)
 	switch r.Pick([]int{12, 3, 2, 1}) {
 	case 0: // small alphabets
 		nk := 1 + r.Intn(4)
@@ -308,7 +324,7 @@ func newGen(r *hlib.Rng, tier string) (*gen, string, int) {
 			g.vals = append(g.vals, []byte{byte('A' + i)})
 		}
 		g.vals = append(g.vals, []byte{}, []byte("AB"))
-		nsteps = 2 + r.Intn(4)
+		nsteps = 2 + r.Intn(5)
 	case 2: // random long keys and values
 		class = "long"
 		nk := 1 + r.Intn(3)
@@ -325,7 +341,7 @@ func newGen(r *hlib.Rng, tier string) (*gen, string, int) {
 		if tier == "thorough" && r.Chance(1, 4) {
 			g.vals = append(g.vals, r.Bytes(65536+r.Intn(3000), nil)) // third length byte
 		}
-		nsteps = 2 + r.Intn(5)
+		nsteps = 2 + r.Intn(6)
 	default: // the empty key beside others
 		class = "emptykey"
 		g.keys = [][]byte{{}, []byte("a"), {0}}
